@@ -48,7 +48,7 @@ DESCRIPTION = {
         "deterministic in (script, metadata): the fault dimension is small - the hash seed, and in 30% of the runs an earlier analysis on the same provider object that was aborted by a bad statement after registering tables; provider stalls/failures and thread interleavings are decided under C12",
     ],
     "required_probes": {
-        "quick": ["chain_consumed", "wildcard_from_session", "unqualified_resolved_by_session", "end_at_intermediate", "session_lookup_hit", "paths_compared", "after_aborted_run", "recreated_by_ctas_or_view", "self_rewrite_paths_checked", "known_table_written_again"],
+        "quick": ["chain_consumed", "wildcard_from_session", "unqualified_resolved_by_session", "end_at_intermediate", "session_lookup_hit", "paths_compared", "after_aborted_run", "recreated_by_ctas_or_view", "self_rewrite_paths_checked", "known_table_written_again", "scalar_subquery_between_definition_and_wildcard_reader"],
         "thorough": ["chain_consumed", "wildcard_from_session", "unqualified_resolved_by_session", "end_at_intermediate", "session_lookup_hit", "paths_compared"],
     },
 }
@@ -135,6 +135,8 @@ def run_one(spec: dict) -> dict:
         probes[n] = probes.get(n, 0) + 1
 
     def tap(event, payload):
+        if event.startswith(("stmt.", "run.")) and payload.get("runner") is not cur.get("runner"):
+            return  # a nested runner (the library analyses expression sub-queries with one): not a statement of the script
         if event == "stmt.begin":
             cur["i"] = payload["index"]
         elif event == "stmt.analyzed":
@@ -174,9 +176,12 @@ def run_one(spec: dict) -> dict:
     scope = SQLLineageConfig(**spec["cfg"]) if spec.get("cfg") else contextlib.nullcontext()
     if spec.get("cfg"):
         probe("lateral_alias_config")
+    if spec.get("shape") == "scalar_subquery":
+        probe("scalar_subquery_between_definition_and_wildcard_reader")
     try:
         with scope:
             runner = LineageRunner(";\n".join(script) + (";" if spec.get("trailing_semicolon") else ""), **kwargs)
+            cur["runner"] = runner
             observed = {tuple(str(c) for c in p) for p in runner.get_column_lineage(exclude_subquery_columns=True)}
         err = None
     except Exception as e:
@@ -547,6 +552,30 @@ def gen_selfrewrite(g, seed, ps, dialect) -> dict:
             "trailing_semicolon": g.random() < 0.5, "expect_paths": [list(p) for p in paths]}
 
 
+def gen_scalar_subquery(g, seed, ps, dialect) -> dict:
+    """Between the statement that creates a table and the one that reads it through SELECT *, a statement whose select
+    list holds a scalar sub-query (the library analyses it with a nested runner) - over one table or a join, with
+    qualified or unqualified columns.  What the session knows about the created table must survive it."""
+    tag = f"k{seed % 1000}"
+    b1, b2, b3 = (g.sample(sorted(BASE_META), 3) if len(BASE_META) >= 3 else (sorted(BASE_META) * 3)[:3])
+    T, V, W = g.sample(UNIVERSE, 3)
+    n = g.choice([2, 3])
+    cols = [f"c_{tag}_q{i}" for i in range(n)]
+    xs = [g.choice(BASE_META[b1]) for _ in range(n)]
+    s1 = f"CREATE TABLE {T} AS SELECT " + ", ".join(f"{x} AS {c}" for x, c in zip(xs, cols)) + f" FROM {b1}"
+    u = g.choice(BASE_META[b2])
+    inner = g.choice([f"SELECT max({u}) FROM {b2} JOIN {b3} ON 1 = 1", f"SELECT max({b2}.{u}) FROM {b2}", f"SELECT count(*) FROM {b2}, {b3}", f"SELECT min({u}) FROM {b2}"])
+    expr = g.choice([f"({inner}) AS m_{tag}", f"CASE WHEN ({inner}) > 0 THEN 1 ELSE 0 END AS m_{tag}", f"coalesce(({inner}), 0) AS m_{tag}"])
+    s2 = g.choice([f"INSERT INTO {V} SELECT {expr}, {cols[0]} FROM {T}", f"INSERT INTO {V} SELECT {expr}, {g.choice(BASE_META[b1])} FROM {b1}", f"SELECT {expr} FROM {b1}"])
+    s3 = g.choice([f"INSERT INTO {W} SELECT * FROM {T}", f"CREATE TABLE {W} AS SELECT * FROM {T}", f"CREATE VIEW {W} AS SELECT * FROM {T}"])
+    in_use = ps is not None and bool(ps["meta"])
+    ann = lambda kind, t, out, srcs_, st=False: {"kind": kind, "target": t, "out": out, "srcs": srcs_, "star": st, "wild": st}
+    k3 = "insert" if s3.startswith("INSERT") else ("ctas" if "TABLE" in s3 else "view")
+    a2 = ann("insert", V, None, [T, b2, b3]) if s2.startswith("INSERT") else {"kind": "select", "target": None, "out": None, "srcs": [], "star": False, "wild": False}
+    return {"seed": seed, "script": [s1, s2, s3], "annot": [ann("ctas", T, list(cols), [b1]), a2, ann(k3, W, list(cols) if in_use else None, [T], True)],
+            "provider": ps, "dialect": dialect, "shape": "scalar_subquery", "trailing_semicolon": g.random() < 0.5}
+
+
 def gen(seed) -> dict:
     g = stream(seed, "gen")
     r = g.random()
@@ -564,6 +593,8 @@ def gen(seed) -> dict:
         return gen_reorder(g, seed, ps, dialect)
     if g.random() < 0.06:
         return gen_selfrewrite(g, seed, ps, dialect)
+    if ps is not None and g.random() < 0.07:
+        return gen_scalar_subquery(g, seed, ps, dialect)
     sg = ScriptGen(g, f"k{seed % 1000}", known=base, allow_drop_rename=False, allow_cte=g.random() < 0.5)
     sg.strict_subquery_cols = True
     sg.shadow_targets = sorted(base)
